@@ -8,6 +8,14 @@ TECH = "solver-based bounded symbolic execution of the Go SSA of /repo (gosym + 
 CHECKS = {
  "C01": ("the real HarfbuzzShaper.Shape (AddRunes, clamping, countClusters, sideways, RecalculateAll) executed symbolically over all run bounds, directions and contract-conforming HarfBuzz results within the text-length bound; the solver decides totality, the reported range and the cluster accounting",
          "only the anchored mechanisms in package shaping are decided; the font-driven interior of HarfBuzz (GSUB/GPOS/morx, normalisation, budgets) is replaced by its contract and is outside the claim"),
+ "C02": ("the real LineWrapper.WrapParagraph (with the real segmenter, cutRun, fillUntil, processBreakOption, postProcessLine) on every bounded paragraph: texts case-split, run layouts case-split, advances/widths/policies/truncation settings symbolic; the solver decides conservation of runes and glyphs, contiguity, advance sums for all those values",
+         "paragraph length, alphabet and run count bounded as stated per tier; input runs assumed to satisfy what Shape guarantees; custom RunIterators, word/letter spacing and WrapNextLine with varying widths not covered"),
+ "C03": ("same harness as C02: every line end is checked against the break opportunities of the real segmenter, the shaped cluster boundaries and the break policy, and mandatory breaks must end their line",
+         "bounds as C02; one known finding (truncation commits whole runs at a run boundary that is not a break opportunity) is listed in known_findings.json; the 'split only when necessary' clause is covered only through the greedy/fit assertions of C04"),
+ "C04": ("same harness as C02: line limit, truncator placement and reported range, fit of every breakable line under the most generous reading of the measured width, and greedy filling under the strictest reading of the extension",
+         "bounds as C02; one known finding (UAX #14 opportunity inside a grapheme) listed; per-line varying widths through WrapNextLine not covered"),
+ "C08": ("computeBidiOrdering on symbolic embedding levels against rule L2 of UAX #9 (every level sequence of the bounded length in one query family), and the visual order of every line produced by the wrap harness",
+         "levels up to base+2 and 4/6 runs; levels >= base+2 are a known finding (the API carries only directions); trimming-run selection covered only through the wrap harness"),
  "C11": ("symbolic cmap values (formats 4, 6/10, 12, 13) through the real Iter/Lookup/RuneRanges, arbitrary valid RuneSets through one step of Add/Delete/Contains/includes/serialize, addRangeToPage over every byte pair, and the coverage builder over symbolic rune ranges; the solver decides agreement for every value inside the segment/page-count bounds",
          "cmaps assumed sorted/non-overlapping (OpenType requirement); cmap0, the symbol/PUA remappers, ProcessCmap's subtable selection and the script half of the coverage are not covered"),
  "C12": ("RecalculateAll/RecomputeAdvance, sideways, AddWordSpacing/AddLetterSpacing/trimStartLetterSpacing on fully symbolic glyph metrics and the real Shape over a stubbed HarfBuzz (sideways law by two Shape calls): identities decided for all metrics within the glyph-count bound",
